@@ -20,11 +20,18 @@ S == 1000000000      \* one second
 
 \* ---- matchers: [name, value] ----
 Mt(n, v) == [name |-> n, value |-> v]
+PrivateRanges == <<"192.168.0.0/16", "172.16.0.0/12", "10.0.0.0/8", "127.0.0.1/8", "fd00::/8", "::1">>
 Rip == Mt("remote_ip", [ranges |-> <<"10.0.0.0/8", "192.168.1.1">>])
 Matchers == {
   Mt("ssh", "EMPTY"), Mt("postgres", "EMPTY"), Mt("xmpp", "EMPTY"), Mt("proxy_protocol", "EMPTY"),
   Mt("tls", [sni |-> <<"a.example.com", "*.wild.test">>]),
   Mt("tls", [alpn |-> <<"h2">>]),
+  \* tls.handshake_match.remote_ip: "!" in front of a range puts it into not_ranges; the keyword private_ranges
+  \* stands for the six private blocks
+  Mt("tls", [remote_ip |-> [ranges |-> <<"10.0.0.0/8">>, not_ranges |-> <<"10.1.0.0/16">>]]),
+  Mt("tls", [remote_ip |-> [not_ranges |-> PrivateRanges]]),
+  Mt("tls", [sni |-> <<"a.example.com">>, remote_ip |-> [ranges |-> PrivateRanges]]),
+  Mt("remote_ip", [ranges |-> PrivateRanges]),
   Mt("http", << [host |-> <<"example.com">>] >>),
   Mt("regexp", [pattern |-> "^HELO", count |-> 8]),
   Rip,
@@ -48,13 +55,16 @@ MatchLists == { <<>> } \cup { <<s>> : s \in MatcherSets } \cup
 Up(d) == [dial |-> d]
 Echo == [handler |-> "echo"]
 ProxySimple == [handler |-> "proxy", upstreams |-> << Up(<<"127.0.0.1:8080">>) >>]
-ProxyFull(order) ==
+\* _upform: how the addresses of the two-address upstream are written (documented syntax "upstream [<addr>] { dial <addr> [<addr>] }"):
+\*   "block"   upstream { dial a b }        "mixed"   upstream a { dial b }        "twodial" upstream { dial a ; dial b }
+ProxyFullU(order, upform) ==
   [handler |-> "proxy",
    upstreams |-> << Up(<<"10.0.0.1:8080">>), [dial |-> <<"10.0.0.2:8080", "10.0.0.2:8888">>, max_connections |-> 3] >>,
    health_checks |-> [active |-> [interval |-> S, port |-> 8080, timeout |-> 2 * S],
                       passive |-> [fail_duration |-> S, max_fails |-> 10, unhealthy_connection_count |-> 5]],
    load_balancing |-> [selection |-> [policy |-> "round_robin"], try_duration |-> 2 * S, try_interval |-> S],
-   proxy_protocol |-> "v2", _order |-> order]
+   proxy_protocol |-> "v2", _order |-> order, _upform |-> upform]
+ProxyFull(order) == ProxyFullU(order, "block")
 ProxyPassive(order) ==
   [handler |-> "proxy", upstreams |-> << Up(<<"10.0.0.3:443">>) >>,
    health_checks |-> [active |-> [timeout |-> 2 * S], passive |-> [max_fails |-> 2]],
@@ -68,7 +78,7 @@ Tee == [handler |-> "tee", branch |-> << Echo >>]
 SubRoute(t) == [handler |-> "subroute",
                 routes |-> << [match |-> << [ssh |-> "EMPTY"] >>, handle |-> << ProxySimple >>], [handle |-> << Echo >>] >>] @@
                (IF t THEN [matching_timeout |-> 2 * S] ELSE [handler |-> "subroute"])
-Terminal == { Echo, ProxySimple, ProxyFull("active_first"), ProxyFull("passive_first"), ProxyPassive("passive_first"), ProxyPassive("active_first"),
+Terminal == { Echo, ProxySimple, ProxyFull("active_first"), ProxyFull("passive_first"), ProxyFullU("active_first", "mixed"), ProxyFullU("passive_first", "twodial"), ProxyPassive("passive_first"), ProxyPassive("active_first"),
               Socks5, SubRoute(FALSE), SubRoute(TRUE) }
 Prefixes == { <<>>, <<PP>>, <<TLSH>>, <<Throttle>>, <<Tee>>, <<PP, TLSH>> }
 HandlerLists == { p \o <<t>> : p \in Prefixes, t \in Terminal }
